@@ -243,7 +243,7 @@ func randPath(r *rand.Rand) string {
 }
 
 func hintName(r *rand.Rand) string {
-	names := []string{"d", "d1", "d2", "q", "pkg", "pkg_d", "x", "fmt", "go", "int", "any", "err", "len", "T", "É", "_x", "a1"}
+	names := []string{"d", "d1", "d2", "q", "pkg", "pkg_d", "x", "fmt", "go", "int", "any", "err", "len", "T", "É", "_x", "a1", "C"}
 	return names[r.Intn(len(names))]
 }
 
